@@ -431,9 +431,13 @@ def _expand(path, meta):
             # every function under <dir> that takes `args: &[Node]`, sliced with respect to argument indexing (vf/argslice.py)
             from . import argslice
             sub = s.split()[1]
+            mode = s.split()[2] if len(s.split()) > 2 else "fn_"      # fn_ (entry points only) | all | local=<fn>
             root = os.path.join(REPO, sub)
             files = []
-            for d, _ds, fs in os.walk(root):
+            if os.path.isfile(root):
+                files.append(sub)
+                sub = os.path.dirname(sub)
+            for d, _ds, fs in (os.walk(root) if os.path.isdir(root) else []):
                 if re.search(r"/(test|tests)(/|$)", d):
                     continue
                 for fnm in sorted(fs):
@@ -449,7 +453,11 @@ def _expand(path, meta):
                     except ExtractError:
                         continue
                     params = m[ob:cb + 1]
-                    if not re.search(r"\bargs\s*:\s*&\s*\[\s*Node\s*\]", params):
+                    local = mode.startswith("local=")
+                    if local:
+                        if mm.group(1) != mode[6:]:
+                            continue
+                    elif not re.search(r"\bargs\s*:\s*&(\s*mut)?\s*\[\s*Node\s*\]", params):
                         continue
                     k = cb + 1
                     while k < len(m) and m[k] not in "{;":
@@ -463,7 +471,7 @@ def _expand(path, meta):
                     rec = dict(kind="argslice", file=rel, item=mm.group(1), byte_range=[f["start"], f["end"]], line=src.count("\n", 0, f["start"]) + 1,
                                sha256=hashlib.sha256(raw.encode()).hexdigest(), rewrites=[],
                                drops=["slice: everything except arity tests, control structure, `?`/return and `args[..]` accesses (vf/argslice.py)"])
-                    if not mm.group(1).startswith("fn_"):
+                    if mode == "fn_" and not mm.group(1).startswith("fn_"):
                         # a helper that receives the caller's argument list: what it may index depends on its call sites (a call-site
                         # precondition would be needed); entry points are the `fn_*` functions the dispatcher calls with the full list
                         if re.search(r"\bargs\s*\[", m[f["body_open"]:f["end"]]):
@@ -471,7 +479,7 @@ def _expand(path, meta):
                             meta["extracted"].append(rec)
                         continue
                     try:
-                        txt, nacc = argslice.slice_function(src, m, f, name)
+                        txt, nacc = argslice.slice_function(src, m, f, name, local=local)
                     except (argslice.Unsliceable, ExtractError, IndexError) as e:
                         rec["drops"].append(f"NOT SLICED ({e}): not under contract")
                         meta["extracted"].append(rec)
